@@ -15,7 +15,9 @@ RULE = ("Random solver-friendly OCPs (2-3 states, 1-2 controls, mildly nonlinear
         "random argument values F is compared with the imperative pipeline (set_value, set_initial, solve, sol.sample / "
         "sol.value) run on a second instance of the same specification with the same ipopt options; a parameter that is "
         "NOT listed is changed with set_value after the first transcription and before to_function and must keep that "
-        "current value.  non-trivial = both pipelines converged and at least one output compared; distinct = method x "
+        "current value.  In 40 % of the cases the imperative pipeline is instead ONE OCP, transcribed and solved once before, "
+        "that receives every set of values through numpy buffers refreshed in place (what a user's MPC loop does).  "
+        "non-trivial = both pipelines converged and at least one output compared; distinct = method x "
         "grid x N x argument selection.")
 ASSUMPTIONS = ["ipopt is deterministic: the same NLP, parameter values and start point give the same iterates",
                "tolerance 1e-6 on outputs (ipopt tol 1e-10)"]
@@ -36,7 +38,7 @@ def gen_cases(rng, tier):
             "coef": [ocpgen.rnd(rng, -0.6, 0.6, 3) for _ in range(6)],
             "args": sorted(rng.sample(["x0", "ref", "q", "u_guess", "x_guess"], rng.randint(1, 4))),
             "zarg": cls == "DC" and rng.random() < 0.0,
-            "limited": rng.random() < 0.5,
+            "limited": rng.random() < 0.5, "persistent": rng.random() < 0.4,
             "values": [], "q_first": ocpgen.rnd(rng, 0.2, 1.0, 3), "q_current": ocpgen.rnd(rng, 0.2, 1.0, 3),
             "seed": rng.getrandbits(32)}
         for _ in range(2 if tier == "quick" else 3):
@@ -91,10 +93,37 @@ def make_ocp(case):
     return ocp, {"x": x, "u": u, "x0": x0p, "ref": ref, "q": q}
 
 
+def imperative_assign(ocp, s, vals, args_sel, case, containers=None):
+    """set_value / set_initial of one set of argument values; with `containers` the values travel in numpy buffers
+    that are kept between calls and refreshed in place"""
+    import casadi as ca
+
+    def box(name, v):
+        arr = np.array(ca.DM(v), dtype=float)
+        if containers is None:
+            return ca.DM(arr)
+        if name in containers and containers[name].shape == arr.shape:
+            containers[name][:] = arr
+        else:
+            containers[name] = arr.copy()
+        return containers[name]
+
+    ocp.set_value(s["q"], box("q", vals["q"] if "q" in args_sel else case["q_current"]))
+    if "x0" in args_sel:
+        ocp.set_value(s["x0"], box("x0", vals["x0"]))
+    if "ref" in args_sel:
+        ocp.set_value(s["ref"], box("ref", ca.DM(vals["ref"]).T))
+    if "u_guess" in args_sel:
+        ocp.set_initial(s["u"], box("u_guess", ca.DM(vals["u_guess"]).T))
+    if "x_guess" in args_sel:
+        ocp.set_initial(s["x"], box("x_guess", ca.DM(np.array(vals["x_guess"]))))
+
+
 def run_case(case):
     import casadi as ca
-    res = {"sig": "%s|%s|N%dM%d|nx%d|%s|%s" % (case["cls"], C.grid_tag(case["grid"]), case["N"], case["M"], case["nx"],
-                                              "+".join(case["args"]), "limited" if case.get("limited") else "converged"),
+    res = {"sig": "%s|%s|N%dM%d|nx%d|%s|%s%s" % (case["cls"], C.grid_tag(case["grid"]), case["N"], case["M"], case["nx"],
+                                              "+".join(case["args"]), "limited" if case.get("limited") else "converged",
+                                              "|persistent" if case.get("persistent") else ""),
            "evals": 0, "violations": [], "counters": {"function_calls": 0, "outputs_compared": 0, "not_converged": 0}}
     N = case["N"]
     ss = case["cls"] == "SS"
@@ -123,6 +152,17 @@ def run_case(case):
     except C.RockitRaised as e:
         res["violations"].append(C.exc_violation(ID, e, case["cls"] + "|" + "+".join(args_sel)))
         return res
+    persistent = None
+    if case.get("persistent"):
+        try:
+            ocpC, sC = make_ocp(case)
+            try:
+                ocpC.solve_limited()
+            except Exception:
+                pass
+            persistent = (ocpC, sC, {})
+        except Exception:  # noqa
+            persistent = None
     for vals in case["values"]:
         ins = []
         for a in args_sel:
@@ -137,18 +177,15 @@ def run_case(case):
             res["counters"]["not_converged"] += 1
             continue
         res["counters"]["function_calls"] += 1
-        # pipeline B: imperative, on a second instance
+        # pipeline B: imperative, on a second instance; pipeline C ('persistent' cases): imperative on ONE instance that
+        # was transcribed and solved before and receives every new set of values in buffers that are refreshed in place
         try:
-            ocpB, sB = make_ocp(case)
-            ocpB.set_value(sB["q"], vals["q"] if "q" in args_sel else case["q_current"])
-            if "x0" in args_sel:
-                ocpB.set_value(sB["x0"], vals["x0"])
-            if "ref" in args_sel:
-                ocpB.set_value(sB["ref"], ca.DM(vals["ref"]).T)
-            if "u_guess" in args_sel:
-                ocpB.set_initial(sB["u"], ca.DM(vals["u_guess"]).T)
-            if "x_guess" in args_sel:
-                ocpB.set_initial(sB["x"], ca.DM(np.array(vals["x_guess"])))
+            if persistent is None:
+                ocpB, sB = make_ocp(case)
+                cont = None
+            else:
+                ocpB, sB, cont = persistent
+            imperative_assign(ocpB, sB, vals, args_sel, case, cont)
             if case.get("limited"):
                 try:
                     sol = ocpB.solve_limited()
@@ -162,6 +199,8 @@ def run_case(case):
         except Exception as e:  # noqa
             res["counters"]["not_converged"] += 1
             continue
+        if persistent is not None:
+            res["counters"]["persistent_rounds"] = res["counters"].get("persistent_rounds", 0) + 1
         for name, a, bb in zip(("states", "controls", "value"), outA, outB):
             a = a.reshape(bb.shape) if a.size == bb.size else a
             res["evals"] += 1
